@@ -114,7 +114,7 @@ pub(crate) use stack_vec;
 macro_rules! stack_vec_empty {
     ($store:ident, $t:ty) => {{
         #[allow(unsafe_code)]
-        let v: Vec<$t> = unsafe { Vec::from_raw_parts($store.as_mut_ptr() as *mut $t, 0, 1) };
+        let v: Vec<$t> = unsafe { Vec::from_raw_parts($store.as_mut_ptr() as *mut $t, 0, 0) }; // cap 0: dropping it deallocates nothing
         v
     }};
 }
